@@ -359,7 +359,15 @@ func TestRandom(t *testing.T) {
 		}
 		k := rapid.IntRange(1, 8).Draw(rt, "ncs")
 		for i := 0; i < k; i++ {
-			switch rapid.IntRange(0, 3).Draw(rt, "ckind") {
+			switch rapid.IntRange(0, 4).Draw(rt, "ckind") {
+			case 4:
+				// the last floats below 1 (1-c of a few ulp: 1-alpha rounds to 1) and the
+				// first above 0
+				if rapid.Bool().Draw(rt, "cend") {
+					c.Cs = append(c.Cs, 1-float64(rapid.IntRange(1, 16).Draw(rt, "culps"))*0x1p-53)
+				} else {
+					c.Cs = append(c.Cs, rapid.SampledFrom([]float64{5e-324, 1e-300, 1e-17, 0x1p-53}).Draw(rt, "czero"))
+				}
 			case 0:
 				c.Cs = append(c.Cs, 1-gen.LogUniform(rt, 1e-12, 0.5, "cnear1"))
 			case 1:
